@@ -185,12 +185,13 @@ def cases(draw):
             else:
                 new = {'kind': 'ts', 'spans': None, 'rel': [
                     [draw(st.sampled_from([-7200, -1, 0, 0, 1, 600])), draw(st.sampled_from([500, 1000, 3_000_000])),
-                     draw(st.sampled_from([3600, 86400, 7200 + 1]))]
+                     draw(st.sampled_from([3600, 86400, 7200 + 1, 7200 + 4, 3]))]
                     for _ in range(draw(st.integers(0, 2)))]}
             steps.append({'op': 'reconfig', 'blk': i, 'cfg': new,
                           'place': draw(st.one_of(st.none(), st.tuples(
                               st.integers(0, nb - 1), st.integers(0, 7),
-                              st.sampled_from([0, 1, 100, 1000, 3000, -100, -2000])).map(list))),
+                              st.sampled_from([0, 1, 100, 1000, 3000, -100, -2000, 10 ** 6, 10 ** 7,
+                                               25 * 10 ** 6])).map(list))),
                           'cost_ms': draw(st.sampled_from([0, 0, 1, 5, 30]))})
         elif r <= 3:
             steps.append({'op': 'jump', 'seconds': draw(st.sampled_from([30, 600, 3599, 3600, 1800]))})
@@ -199,6 +200,11 @@ def cases(draw):
             steps.append({'op': 'jump_at', 'tod': draw(st.sampled_from([23 * 3600 + 600, 23 * 3600 + 3000,
                                                                         22 * 3600 + 1800, 11 * 3600 + 3540])),
                           'seconds': draw(st.sampled_from([3600, 3000, 1800, 3599]))})
+        elif r == 5:
+            # a forward jump that skips a boundary of some block
+            steps.append({'op': 'jump_over', 'blk': draw(st.integers(0, nb - 1)), 'which': draw(st.integers(0, 7)),
+                          'before_s': draw(st.sampled_from([5, 25, 500, 3000])),
+                          'seconds': draw(st.sampled_from([30, 600, 3600]))})
         elif r <= 9:
             steps.append({'op': 'to_boundary', 'blk': draw(st.integers(0, nb - 1)), 'which': draw(st.integers(0, 7)),
                           'after_ms': draw(st.sampled_from([70, 500, 61]))})
@@ -327,6 +333,16 @@ def execute(case):
             if op == 'sleep':
                 await __import__('asyncio').sleep(step['seconds'])
             elif op == 'jump':
+                wall.jump(step['seconds'])
+                jump_until[0] = clock.now + 3600 + 1
+                obs['jumped'] = True
+            elif op == 'jump_over':
+                cfg = cfgs[step['blk']]
+                pts = boundaries_tod(cfg)
+                p = pts[step['which'] % len(pts)]
+                delta = (p - now_us(cfg) % DAY) % DAY - step['before_s'] * 10 ** 6
+                if delta > 0:
+                    await __import__('asyncio').sleep(delta / 1e6)
                 wall.jump(step['seconds'])
                 jump_until[0] = clock.now + 3600 + 1
                 obs['jumped'] = True
